@@ -170,7 +170,8 @@ def coqchk(props_files):
 
 def coq_check_text(name, text, extra_Q=(), timeout=600):
     """Compile a generated .v text; returns (ok, output)."""
-    d = os.path.join(WORK, 'gen')
+    # one directory per process: two runs of one property at a time (seed sweeps) must not share a file
+    d = os.path.join(WORK, 'gen', str(os.getpid()))
     os.makedirs(d, exist_ok=True)
     p = os.path.join(d, name + '.v')
     open(p, 'w').write(text)
@@ -179,6 +180,16 @@ def coq_check_text(name, text, extra_Q=(), timeout=600):
         cmd += ['-Q', dd, n]
     cmd += ['-w', '-notation-overridden,-deprecated-hint-without-locality', p]
     rc, out = sh(cmd, cwd=d, timeout=timeout + 60)
+    for ext in ('.vo', '.vok', '.vos', '.glob', '.aux'):
+        for q in (os.path.join(d, name + ext), os.path.join(d, '.' + name + ext)):
+            if os.path.exists(q):
+                os.remove(q)
+    if rc == 0:
+        os.remove(p)
+        try:
+            os.rmdir(d)
+        except OSError:
+            pass
     return rc == 0, out
 
 
